@@ -86,12 +86,17 @@ impl From<&Vlan> for Vec<u8> {
     fn from(vlan: &Vlan) -> Self {
         let header = vlan.header.borrow().clone();
         let mut bytes: Vec<u8> = (&header).into();
-        if let Some(inner) = vlan.inner.borrow().clone() {
-            let b: Vec<u8> = inner.as_ref().into();
-            bytes.extend_from_slice(&b);
-        } else {
-            let data = vlan.rawdata.borrow().clone();
-            bytes.extend_from_slice(&data[vlan.offset..]);
+        // An inner layer that failed to parse (error object) has no bytes of
+        // its own: the captured bytes are written as they are
+        match vlan.inner.borrow().clone() {
+            Some(inner) if !inner.is_error() => {
+                let b: Vec<u8> = inner.as_ref().into();
+                bytes.extend_from_slice(&b);
+            }
+            _ => {
+                let data = vlan.rawdata.borrow().clone();
+                bytes.extend_from_slice(&data[vlan.offset..]);
+            }
         }
         bytes
     }
